@@ -62,7 +62,13 @@ class ProcedureBank(object):
                 name = match[1]
                 name_to_procedure_array[name] = current_procedure
             current_procedure.append(line)
-            invoked_names = INVOKED_PROCEDURE_NAMES.findall(line)
+            comment_start = line.find("(*")
+            code = (
+                line[:comment_start]
+                if comment_start >= 0 and line[:comment_start].count('"') % 2 == 0
+                else line
+            )
+            invoked_names = INVOKED_PROCEDURE_NAMES.findall(code)
             self._name_to_dependencies[name].update(invoked_names)
 
         for name, procedure in name_to_procedure_array.items():
